@@ -177,4 +177,14 @@ PROPS = {
              "params": {"quick": {"threads": 2, "ops": 2}, "thorough": {"threads": 2, "ops": 2}}, "wall": {"quick": "100s", "thorough": "40m"}},
         ],
     },
+    "C11": {
+        "technique": "bounded symbolic execution of lisp.EVAL and env.* under two engine threads on one root environment preloaded by the real loaders (core, header libraries incl. gensym and memoize, concurrent): symbolic schedules (preemption-bounded; scheduling points at every lock, channel, atomic, go and exit operation), vector-clock race detection on every heap and map access, deadlock detection, each result compared with the solo result",
+        "outside": "more than two evaluations, more preemptions than the bound, programs other than the ten templates, the debugger globals with a stepper installed; the schedule choices are enumerated by the engine (program data is concrete here): this is the thinnest claim of the set",
+        "level_note": "trusted: go/ssa, the symgo interpreter, its RWMutex/atomic/channel/goroutine models and scheduler (sequentially consistent interleavings at synchronisation operations; DRF-SC)",
+        "runs": [
+            {"pkg": "./c11", "harness": "Harness_pair", "setup": "Setup", "race": True, "native_timeout": 120, "threads": 6,
+             "preemptions": {"quick": 1, "thorough": 1},
+             "params": {"quick": {"templates": 5}, "thorough": {"templates": 10}}, "wall": {"thorough": "40m"}},
+        ],
+    },
 }
